@@ -1532,4 +1532,13 @@ theorem poly_object_relabel_succeeds_energy (x : Label → Rat) (m : List (Label
     exact poly_object_relabel_energy_of_labels x _ s hs hinj hfresh
   · simp at h
 
+/-- the conflict path (`PolyOp.relabelVia`, `resolve_label_conflict` as coded): swapping `0 ↔ 1` in `x0x1x2 + x0/2 + 3x1` goes through the
+    intermediate labels 4 and 5 (`2·len(mapping)` onwards) and gives `x0x1x2 + 3x0 + x1/2`; the history theorems cover this op too
+    (every `PolyOp` keeps the object well formed) -/
+example : (objectAfter .binary [([.int 0, .int 1, .int 2], 1), ([.int 0], 1/2), ([.int 1], 3)] [.relabelVia [(.int 0, .int 1), (.int 1, .int 0)]]).toOption
+      = some [([.int 1, .int 0, .int 2], 1), ([.int 1], 1/2), ([.int 0], 3)]
+    ∧ resolveConflict [(.int 0, .int 1), (.int 1, .int 0)] [.int 0, .int 1, .int 2]
+      = ([(.int 0, .int 4), (.int 1, .int 5)], [(.int 4, .int 1), (.int 5, .int 0)]) := by
+  decide +kernel
+
 end C15
